@@ -139,6 +139,7 @@ func (s *Session) report(id string, cfg *CheckConfig, dev bool, t0 time.Time, lo
 	}
 	// violations
 	exit := 0
+	replayed := map[string]int{}
 	nviol := 0
 	nKnownObl := 0
 	var knownLines []string
@@ -157,7 +158,12 @@ func (s *Session) report(id string, cfg *CheckConfig, dev bool, t0 time.Time, lo
 		u := failedUnit[i]
 		var rr *ReplayResult
 		if o.Script != "" && u.Con != nil && u.Con.Replay != "" {
-			rr = s.tryReplay(u, o)
+			if prev, ok := replayed[u.Key]; ok && prev >= 2 {
+				rr = &ReplayResult{Template: u.Con.Replay, Note: "replay skipped: two obligations of this function were already replayed in this run"}
+			} else {
+				rr = s.tryReplay(u, o)
+				replayed[u.Key]++
+			}
 		}
 		vf := filepath.Join(vdir, sanitize(o.Name)+".json")
 		doc := map[string]any{
